@@ -19,6 +19,7 @@ import Ladybug.Gen.UnitsProofs2
 import Ladybug.Gen.UnitsProofs3
 import Ladybug.Gen.UnitsProofs4
 import Ladybug.Gen.UnitsSym
+import Ladybug.Proofs.C06Hist
 
 open Units Gen.UnitsProofs
 
@@ -690,6 +691,108 @@ theorem C06_angle_roundtrip_rat (pi x : Rat) (hpi : pi ≠ 0) :
     Gen.Units.Angle.radians_to_degrees pi (Gen.Units.Angle.degrees_to_radians pi x) = x := by
   rw [Gen.UnitsSym.C06_sym_Angle_radians_to_degrees, Gen.UnitsSym.C06_sym_Angle_degrees_to_radians]
   exact (C06_angle_roundtrip pi x hpi).1
+
+
+/-! ### Histories on one object / several objects in one process (round 3)
+
+`Model/UnitsHist.lean` has two machines over the same operations (in-place conversions, copies, immutable /
+mutable twins, item and values assignment, area / time derivations, range reads; refused operations return an
+error).  `Hist.rstep` is the code as it is (an object refers to a Header cell; in-place conversions write through
+the reference; every constructor allocates a Header of its own) and is what the driver runs against the real
+objects step by step; `Hist.step` is the specification (an operation is a function of the public state of the
+object it is called on, nothing else).  The data-type layer (`to_unit`, `to_ip`, `to_si`, `is_in_range`) is a
+family of pure functions in the model: it has no state at all, which IS the statement that answers do not depend
+on earlier calls; the harness checks the real objects against it along call histories and in fresh processes. -/
+
+open Units.Hist
+
+/-- HISTORY REFINES FRESH: start from any objects with public states `cs` (each with a Header of its own) and run
+    any history `ops` on the reference-level machine.  Then (1) the public states of all objects are those the
+    value-level specification computes from `cs` alone, (2) every output along the way (results, refusals, range
+    flags) is the specification's, and (3) whatever is asked next (`op`) is answered exactly as by FRESH objects
+    built from the final public states: nothing but the public state survives a history. -/
+theorem C06_history_refines_fresh (R : Reg) (cs : List Coll) (ops : List Op) (op : Op) :
+    (rrun R (RHeap.fresh cs) ops).1.abs = (run R cs ops).1 ∧
+    (rrun R (RHeap.fresh cs) ops).2 = (run R cs ops).2 ∧
+    (rstep R (rrun R (RHeap.fresh cs) ops).1 op).2
+      = (rstep R (RHeap.fresh (rrun R (RHeap.fresh cs) ops).1.abs) op).2 ∧
+    (rstep R (rrun R (RHeap.fresh cs) ops).1 op).1.abs
+      = (rstep R (RHeap.fresh (rrun R (RHeap.fresh cs) ops).1.abs) op).1.abs := by
+  obtain ⟨hinv, habs, hout⟩ := rrun_sim R ops (RHeap.fresh cs) (fresh_inv cs)
+  rw [fresh_abs] at habs hout
+  obtain ⟨_, ha1, ho1⟩ := rstep_sim R _ hinv op
+  obtain ⟨_, ha2, ho2⟩ := rstep_sim R _ (fresh_inv (rrun R (RHeap.fresh cs) ops).1.abs) op
+  rw [fresh_abs] at ha2 ho2
+  exact ⟨habs, hout, by rw [ho1, ho2], by rw [ha1, ha2]⟩
+
+/-- REFUSED PRESERVES: an operation that raises (unlisted unit, in-place operation on an immutable collection,
+    values of the wrong length, index out of range, zero area, a type without normalised / aggregated type, ...)
+    leaves the whole heap — every Header cell, every object, hence every observation — exactly as it was; at the
+    value level likewise. -/
+theorem C06_refused_preserves (R : Reg) (h : RHeap) (op : Op) (e : HErr) (hr : (rstep R h op).2 = .err e) :
+    (rstep R h op).1 = h ∧ (rstep R h op).1.abs = h.abs ∧
+    ∀ hv : List Coll, (step R hv op).2 = .err e → (step R hv op).1 = hv := by
+  have h1 := rstep_refused R h op e hr
+  exact ⟨h1, by rw [h1], fun hv hr' => step_refused R hv op e hr'⟩
+
+/-- READS ARE PURE and their order does not matter: a range read leaves the heap as it is, so two reads give the
+    same two answers in either order, and a repeated read gives the same answer. -/
+theorem C06_read_pure (R : Reg) (h : RHeap) (op1 op2 : Op) (h1 : op1.isRead = true) (h2 : op2.isRead = true) :
+    (rstep R h op1).1 = h ∧
+    (rrun R h [op1, op2]).2 = [(rstep R h op1).2, (rstep R h op2).2] ∧
+    (rrun R h [op2, op1]).2 = [(rstep R h op2).2, (rstep R h op1).2] ∧
+    (rrun R h [op1, op1]).2 = [(rstep R h op1).2, (rstep R h op1).2] ∧
+    (rrun R h [op1, op2]).1 = h := by
+  have pure : ∀ op : Op, op.isRead = true → (rstep R h op).1 = h := by
+    intro op hr
+    cases op <;> simp [Op.isRead] at hr
+    unfold rstep
+    cases ho : h.objs[(Op.rng _).target]? with
+    | none => rfl
+    | some o =>
+      simp only [act]
+      cases (view h.cells o).T.isInRange (view h.cells o).values (some (view h.cells o).unit) <;> rfl
+  have p1 := pure op1 h1
+  have p2 := pure op2 h2
+  refine ⟨p1, ?_, ?_, ?_, ?_⟩ <;> simp only [rrun, p1, p2]
+
+/-- NO ACTION AT A DISTANCE (immutable twins, copies, derived collections): on a heap built by the operations, an
+    operation called on object `op.target` leaves the public state of every OTHER object `j` as it was — in
+    particular an in-place conversion of a collection never relabels the immutable twin taken from it before. -/
+theorem C06_history_frame (R : Reg) (h : RHeap) (hinv : h.Inv) (op : Op) (j : Nat) (hj : j ≠ op.target)
+    (hjl : j < h.objs.length) : (rstep R h op).1.abs[j]? = h.abs[j]? := by
+  rw [(rstep_sim R h hinv op).2.1]
+  exact step_frame R h.abs op j hj (by rw [abs_length]; exact hjl)
+
+/-- IN-PLACE CONVERSION INSIDE A HISTORY keeps the physical meaning: when object `t` is a mutable collection of a
+    certified type in a listed unit `u`, `convert_to_unit(v)` to a listed unit succeeds and replaces exactly that
+    object's label by `v` and its values by the index-level conversion (to which `C06_si_value` and
+    `C06_roundtrip` apply); a unit the type does not list is refused with ValueError and (by
+    `C06_refused_preserves`) nothing changes. -/
+theorem C06_history_convert (R : Reg) (k : Cert) (hk : k ∈ allCerts) (h : List Coll) (t : Nat) (vals : List Rat)
+    {u v : String} (hu : u ∈ k.T.units) (ht : h[t]? = some ⟨k.T, u, vals, false⟩) :
+    (v ∈ k.T.units → ∃ i j, i < k.n ∧ j < k.n ∧
+        step R h (.cu t v) = (h.set t ⟨k.T, v, vals.map (k.T.convIdx i j), false⟩, .done)) ∧
+    (v ∉ k.T.units → step R h (.cu t v) = (h, .err .value)) := by
+  constructor
+  · intro hv
+    obtain ⟨i, j, hi, hj, _, _, hto⟩ := C06_to_unit_listed k hk hu hv vals
+    refine ⟨i, j, hi, hj, ?_⟩
+    simp [step, Op.target, ht, act, Coll.convertToUnit, Coll.convUnit, hto, lift]
+  · intro hv
+    have := C06_reject_to k hk hu hv vals
+    simp [step, Op.target, ht, act, Coll.convertToUnit, Coll.convUnit, this, lift, ofErr]
+
+/-- Non-vacuity: a twin taken before an in-place conversion keeps unit and values (C -> F on the original). -/
+example :
+    ((rrun (Gen.Units.reg 3) (RHeap.fresh [⟨cert_Temperature.T, "C", [20], false⟩]) [.imm 0, .cu 0 "F", .cu 1 "K",
+        .cu 0 "foo", .rng 1]).1.abs.map fun c => (c.unit, c.values, c.immutable))
+      = [("F", [68], false), ("C", [20], true)] := by decide +kernel
+
+example :
+    (rrun (Gen.Units.reg 3) (RHeap.fresh [⟨cert_Temperature.T, "C", [20], false⟩]) [.imm 0, .cu 0 "F", .cu 1 "K",
+        .cu 0 "foo", .rng 1, .set 0 5 1]).2
+      = [.made 1, .done, .err .attr, .err .value, .flag true, .err .index] := by decide +kernel
 
 /-! ### Non-vacuity -/
 
